@@ -48,6 +48,32 @@ pub fn run(thorough: bool, seed: u64, _replay: Option<String>) -> Report {
         b.extend_from_slice("…fin: déjà vu, naïve café, Ünïcödé at the very end".as_bytes());
         contents.push((b, Sett::default(), format!("size-{}-utf8-tail", len)));
     }
+    // files beyond the limits whose *head* is unusual – NUL-separated listings, control characters, UTF-16 without a mark,
+    // a head that looks nothing like the rest – with valid and with unknown filter names: whatever a reader might
+    // conclude from peeking at the first block must be what the whole content gives
+    {
+        let line = b"usr/share/doc/package/changelog.gz\0usr/share/doc/package/copyright\0usr/bin/tool\0";
+        let mut nul_listing: Vec<u8> = line.iter().cycle().take(1_000_300).cloned().collect();
+        nul_listing[5] = 0;
+        contents.push((nul_listing.clone(), Sett::default(), "size-1000300-nul-separated".into()));
+        let mut s_bad = Sett::default();
+        s_bad.incl = vec!["no-such-charset".into()];
+        contents.push((nul_listing.clone(), s_bad, "size-1000300-nul-separated-unknown-filter".into()));
+        let mut ctrl: Vec<u8> = (0..4096u32).map(|i| (i % 32) as u8).collect();
+        ctrl.extend(std::iter::repeat(*b"plain text after a block of control characters. ").take(21_000).flatten());
+        contents.push((ctrl, Sett::default(), "size-1MB-control-head".into()));
+        if thorough {
+            let text = "The quick brown fox jumps over the lazy dog. ".repeat(12_000);
+            let utf16: Vec<u8> = text.encode_utf16().flat_map(|u| u.to_le_bytes()).collect();
+            contents.push((utf16, Sett::default(), "size-1MB-utf16le-no-mark".into()));
+            let mut bin_head: Vec<u8> = (0..4096u32).map(|i| (i.wrapping_mul(97) % 256) as u8).collect();
+            bin_head.extend(std::iter::repeat(*b"and then ordinary prose for more than a million bytes. ").take(19_000).flatten());
+            contents.push((bin_head, Sett::default(), "size-1MB-binary-head".into()));
+            let mut small_nul = nul_listing.clone();
+            small_nul.truncate(999_999);
+            contents.push((small_nul, Sett::default(), "size-999999-nul-separated".into()));
+        }
+    }
     for _ in 0..n {
         let mut r = rng.fork();
         let c = structured_case(&mut r, &corpus);
